@@ -39,8 +39,9 @@ def split_jobs(engine, prop, seed, total, procs, threads, variant, known, tier, 
 def tree_plan(prop, level, rule, n_quick, n_thorough, nd_frac=4):
     def plan(tier, seed, known):
         n = n_thorough if tier == "thorough" else n_quick
-        jobs = split_jobs("e1", prop, seed, n, 3, 4, "default", known, tier)
-        jobs += split_jobs("e1", prop, seed, max(50, n // nd_frac), 1, 4, "nodefault", known, tier, base=10_000_000)
+        # --big: one run in forty uses the large-batch profile (depth 11-12, range/batch writes of 300-3000 leaves)
+        jobs = split_jobs("e1", prop, seed, n, 3, 4, "default", known, tier, extra=["--big"])
+        jobs += split_jobs("e1", prop, seed, max(50, n // nd_frac), 1, 4, "nodefault", known, tier, extra=["--big"], base=10_000_000)
         return {
             "jobs": jobs,
             "level": level,
@@ -68,13 +69,13 @@ PLANS = {
 
 def c16_plan(tier, seed, known):
     thorough = tier == "thorough"
-    n_hist = 4000 if thorough else 330
-    n_l2 = 6000 if thorough else 900
+    n_hist = 1500 if thorough else 330
+    n_l2 = 4000 if thorough else 900
     jobs = split_jobs("e1store", "C16", seed, n_hist, 3, 4, "default", known, tier)
     # L2: sled's failpoints are process-global, so each process runs its simulations one at a time
     jobs += split_jobs("e1store", "C16", seed, n_l2, 4, 1, "default", known, tier, extra=["--l2"], base=50_000_000)
     # crash without goodbye: the history in a child process that _exit()s at storage write k (every k it reaches)
-    jobs += split_jobs("e1store", "C16", seed, 600 if thorough else 48, 2, 8, "default", known, tier, extra=["--crash"], base=60_000_000)
+    jobs += split_jobs("e1store", "C16", seed, 400 if thorough else 96, 2, 8, "default", known, tier, extra=["--crash"], base=60_000_000)
     # storage configurations: reopen under another valid configuration, invalid/unsupported ones give clean errors
     jobs += split_jobs("e1store", "C16", seed, 300 if thorough else 40, 1, 4, "default", known, tier, extra=["--configs"], base=65_000_000)
     # reopen while the storage lock is still held (simulated clock): acknowledged data must survive
